@@ -255,6 +255,7 @@ func c05Alphabet() []c05Cmd {
 		{kind: "add", svc: "sa", host: "foo.com", path: "/x", dst: h1},
 		{kind: "add", svc: "sa", host: "foo.com", path: "/x", dst: h1 + "#frag", tags: []string{"build#12"}}, // '#' is data inside a command, not a comment
 		{kind: "add", svc: "sa", host: "foo.com", path: "/", dst: h1, w: 0.5},
+		{kind: "add", svc: "sd", host: "foo.com", path: "/", dst: "http://10.0.0.4:80/", w: 1}, // takes all the traffic: its siblings get a share of zero and are targets all the same
 		{kind: "add", svc: "sa", host: "foo.com", path: "/", dst: h1, w: -1}, // negative = no fixed weight: same target as the first command
 		{kind: "add", svc: "sc", host: "foo.com", path: "/X", dst: h2, w: 10}, // weights above 1 are legal (normalised); 10 has trailing zeros in every rendering; /X and /x are different paths
 		{kind: "weight", form: "svc", svc: "sc", host: "foo.com", path: "/X", w: 0.4},
@@ -302,7 +303,7 @@ func c05Script(alpha []c05Cmd, script []int) string {
 
 func TestVerifC05Commands(t *testing.T) {
 	L := ev.Begin("C05", "c05-commands", "model_checking",
-		"explicit-state BFS over route command scripts: 25 commands ('#' inside a destination and a tag, a non-positive weight on a target that has a fixed one, paths differing only in letter case, an option value containing '=', add incl. host-case / weight / tags / opts / near-miss destination variants, the 5 del forms, the 3 weight forms); state = canonical reference table; every (state,command) transition rebuilds the real table with NewTable(shortest script + command) and compares hosts, routes, ordered targets (service, url, fixed weight, tags, opts) with the reference interpreter; every state round-trips through Parse(t.String()). non-trivial = transition that changes the state")
+		"explicit-state BFS over route command scripts: 26 commands (a target with weight 1 next to others, '#' inside a destination and a tag, a non-positive weight on a target that has a fixed one, paths differing only in letter case, an option value containing '=', add incl. host-case / weight / tags / opts / near-miss destination variants, the 5 del forms, the 3 weight forms); state = canonical reference table; every (state,command) transition rebuilds the real table with NewTable(shortest script + command) and compares hosts, routes, ordered targets (service, url, fixed weight, tags, opts) with the reference interpreter; every state round-trips through Parse(t.String()). non-trivial = transition that changes the state")
 	alpha := c05Alphabet()
 	maxDepth := 5
 	if ev.Thorough() {
@@ -473,6 +474,33 @@ func c05RoundTrip(L *ev.Layer, tbl Table, ref *c05Tab, detail map[string]interfa
 			d["weight_before"], d["weight_after"] = wa[1], wb[1]
 			L.Violation("roundtrip/effective-weight-differs", d)
 			return
+		}
+	}
+	// targets whose share is zero (their siblings' fixed weights take everything) are targets all the same
+	has := func(t Table, host, path, svc, u string) bool {
+		for _, routes := range t {
+			for _, r := range routes {
+				if r.Host != host || r.Path != path {
+					continue
+				}
+				for _, x := range r.Targets {
+					if x.Service == svc && x.URL.String() == u {
+						return true
+					}
+				}
+			}
+		}
+		return false
+	}
+	for _, routes := range tbl {
+		for _, r := range routes {
+			for _, x := range r.Targets {
+				if x.Weight <= 0 && !has(t2, r.Host, r.Path, x.Service, x.URL.String()) {
+					d["lost_target"] = fmt.Sprintf("%s %s%s %s (share 0)", x.Service, r.Host, r.Path, x.URL)
+					L.Violation("roundtrip/target-with-a-share-of-zero-not-rendered", d)
+					return
+				}
+			}
 		}
 	}
 }
